@@ -402,7 +402,7 @@ def _stringy(v):
     if isinstance(v, Const):
         return isinstance(v.v, (str, bytes))
     if isinstance(v, Op):
-        return v.op in ("concat", "fmt", "str", "hex", "chr", "decode", "m:hex", "m:strip", "m:rstrip",
+        return v.op in ("concat", "fmt", "str", "hex", "chr", "decode", "strmul", "m:hex", "m:strip", "m:rstrip",
                         "m:lstrip", "m:lower", "m:upper", "m:join", "m:format", "m:ljust", "m:rjust",
                         "m:replace", "getslice_str", "m:encode", "m:decode", "repr")
     if isinstance(v, Ite):
